@@ -11,12 +11,12 @@ git -C $WT checkout -q -- . ; git -C $WT clean -fdq; git -C $WT checkout -q --de
 git -C $WT apply /verif/seeded/$NAME/patch.diff || { echo "patch does not apply to HEAD"; exit 2; }
 cd /verif
 VERIF_REPO=$WT ./check $PROP --tier $TIER > /tmp/seedrun_$NAME.log 2>&1; RC=$?
-grep -v KNOWN /tmp/seedrun_$NAME.log | tail -4
+grep -a -v KNOWN /tmp/seedrun_$NAME.log | tail -4
 git -C $WT checkout -q -- . ; git -C $WT clean -fdq
 python3 - "$NAME" "$RC" "$TIER" <<'PY'
 import json,sys,re
 name,rc,tier=sys.argv[1],int(sys.argv[2]),sys.argv[3]
-log=open(f'/tmp/seedrun_{name}.log').read()
+log=open(f'/tmp/seedrun_{name}.log',errors='replace').read()
 viol=[l for l in log.splitlines() if l.startswith('VIOLATION')]
 fi=[l.strip() for l in log.splitlines() if 'failing input' in l][:2]
 p=f'/verif/seeded/{name}/meta.json'; m=json.load(open(p))
